@@ -7,8 +7,10 @@ oracle_c20 — line protocol (every line is self-contained, there is no state):
   `<ty>.rt <v>`           marshal then unmarshal                        → `enc=t:<tok> dec=<as above>`
   `hex.dec <16|32> <s|u> t:<tok>`, `hex.rt <16|32> <s|u> <v>`
   `b64.dec t:<tok>` → `ok x:<hex>` | `err:other`;  `b64.rt x:<hex>` → `enc=t:<tok> dec=ok x:<hex>`
-  `sql.scan <nano|unix|stamp|t2u> <i32|u32|i64|u64|int|uint|time|other> <v>` → `ok <ts>`
-  `sql.rt <nano|unix|stamp|t2u> <v>` → `val=<v> scan=ok <v>`
+  `sql.scan <nano|unix|stamp|t2u> <i32|u32|i64|u64|int|uint|f64|bool|bytes|str|time|null> <v>` → `ok <sec>:<nsec>` (nano, unix) | `ok <stamp>`
+  `sql.rt <nano|unix|stamp|t2u> <v>`, `sql.rtt <nano|unix> <sec> <nsec> <how>` → `val=<driver value> scan=…`
+  `ntime.rtt|utime.rtt <sec> <nsec> <how>` → `enc=t:<tok> dec=ok <sec>:<nsec>`   (how ∈ unix | zero | date<Y>: how the runner builds the time.Time)
+  `dur.toml t:<tok>|k:<kind>`, `byte.fromstr t:<tok>`, `b64.scankind <kind>`; `dur.rt` also prints `get=` (Duration()) and `toml=`, `byte.rt` also `str=` (ToString) and `fs=` (FromString)
 Tokens are escaped: bytes outside 0x21…0x7E and `%` are written `%XX`.
 The configuration is the one regenerated from the source (`Nv.Gen.C20.cfg`).
 -/
@@ -82,11 +84,36 @@ def wrapOf (ty : String) : Option Wrap :=
 def parseNatList (s : String) : Option (List Nat) :=
   if s == "-" then some [] else (s.splitOn ",").mapM (·.toNat?)
 
+def parseTime? (v : String) : Option Time :=
+  match v.splitOn ":" with
+  | [a, b] =>
+    match a.toInt?, b.toNat? with
+    | some s, some n => if n < 1000000000 then some ⟨s, n⟩ else none
+    | _, _ => none
+  | _ => none
+
 def sqlVal? (ty v : String) : Option SqlVal :=
   if ty == "i32" then v.toInt?.map .i32 else if ty == "u32" then v.toNat?.map .u32
   else if ty == "i64" then v.toInt?.map .i64 else if ty == "u64" then v.toNat?.map .u64
   else if ty == "int" then v.toInt?.map .int else if ty == "uint" then v.toNat?.map .uint
-  else if ty == "time" then v.toInt?.map .time else if ty == "other" then some .other
+  else if ty == "f64" then v.toInt?.map .f64
+  else if ty == "bool" then (if v == "1" then some (.bool true) else if v == "0" then some (.bool false) else none)
+  else if ty == "bytes" then (tok? v).map .bytes else if ty == "str" then (tok? v).map .str
+  else if ty == "time" then (parseTime? v).map .time
+  else if ty == "null" then (if v == "-" then some .null else none)
+  else none
+
+def showTime (t : Time) : String := s!"{t.sec}:{t.nsec}"
+
+def howOk (how : String) (t : Time) : Bool :=
+  how == "unix" || (how == "zero" && t == Time.zero) ||
+  (how.startsWith "date" && (how.drop 4).toString.toNat?.isSome && t.nsec == 0)
+
+def scanTarget (target : String) (sv : SqlVal) : Option String :=
+  let cfg := Nv.Gen.C20.cfg
+  if target == "nano" then some (showRes showTime (scanNano cfg.scanInt sv))
+  else if target == "unix" then some (showRes showTime (scanUnix cfg.scanInt sv))
+  else if target == "stamp" || target == "t2u" then some (showRes showInt (scanStamp cfg.scanStamp 7 sv))
   else none
 
 def answer (line : String) : String :=
@@ -97,6 +124,14 @@ def answer (line : String) : String :=
       match tok? a with | some b => showRes showInt (decodeDur cfg.dur b) | none => "bad-op"
     else if op == "byte.dec" then
       match tok? a with | some b => showRes showNats (decodeBytes cfg.byte cfg.byteConv b) | none => "bad-op"
+    else if op == "byte.fromstr" then
+      match tok? a with | some b => showRes showNats (fromString cfg.byteConv b) | none => "bad-op"
+    else if op == "dur.toml" then
+      match tok? a with
+      | some b => showRes showInt (parseDuration b)
+      | none => if a == "k:int" || a == "k:bytes" || a == "k:nil" || a == "k:float" then "err:invalid" else "bad-op"
+    else if op == "b64.scankind" then
+      if a == "int" || a == "nil" || a == "float" || a == "time" then "err:other" else "bad-op"
     else if op == "b64.dec" then
       match tok? a with | some b => showRes showX (b64Decode b) | none => "bad-op"
     else if op == "b64.rt" then
@@ -105,11 +140,11 @@ def answer (line : String) : String :=
       | none => "bad-op"
     else if op == "dur.rt" then
       match a.toInt? with
-      | some d => if inI64 d then let e := encodeDur d; s!"enc={showTok e} dec={showRes showInt (decodeDur cfg.dur e)}" else "bad-op"
+      | some d => if inI64 d then let e := encodeDur d; s!"enc={showTok e} dec={showRes showInt (decodeDur cfg.dur e)} get={d} toml={showRes showInt (parseDuration (durString d))}" else "bad-op"
       | none => "bad-op"
     else if op == "byte.rt" then
       match parseNatList a with
-      | some l => if l.all (· < 256) then let e := encodeBytes l; s!"enc={showTok e} dec={showRes showNats (decodeBytes cfg.byte cfg.byteConv e)}" else "bad-op"
+      | some l => if l.all (· < 256) then let e := encodeBytes l; s!"enc={showTok e} dec={showRes showNats (decodeBytes cfg.byte cfg.byteConv e)} str={showTok (toJS l)} fs={showRes showNats (fromString cfg.byteConv (toJS l))}" else "bad-op"
       | none => "bad-op"
     else if op == "u64.rt" then
       match a.toNat? with
@@ -150,17 +185,34 @@ def answer (line : String) : String :=
     | none => "bad-op"
   | ["sql.scan", target, ty, v] =>
     match sqlVal? ty v with
-    | some sv =>
-      if target == "nano" || target == "unix" then s!"ok {scanTs sv}"
-      else if target == "stamp" || target == "t2u" then s!"ok {scanStamp 7 sv}"
-      else "bad-op"
+    | some sv => (scanTarget target sv).getD "bad-op"
     | none => "bad-op"
   | ["sql.rt", target, v] =>
     match v.toInt? with
     | some x =>
       if !inI64 x then "bad-op"
-      else if target == "nano" || target == "unix" then s!"val={x} scan=ok {scanTs (.i64 x)}"
-      else if target == "stamp" || target == "t2u" then s!"val={x} scan=ok {scanStamp 7 (.time x)}"
+      else if target == "nano" || target == "unix" then
+        s!"val={x} scan={(scanTarget target (.i64 x)).getD "bad-op"}"
+      else if target == "stamp" || target == "t2u" then
+        s!"val={x} scan={(scanTarget target (.time (timeUnix x 0))).getD "bad-op"}"
+      else "bad-op"
+    | none => "bad-op"
+  | ["sql.rtt", target, a, b, how] =>
+    match parseTime? (a ++ ":" ++ b) with
+    | some t =>
+      if !howOk how t || !inI64 t.sec then "bad-op"
+      else if target == "nano" then s!"val={t.unixNano} scan={(scanTarget target (.i64 t.unixNano)).getD "bad-op"}"
+      else if target == "unix" then s!"val={t.sec} scan={(scanTarget target (.i64 t.sec)).getD "bad-op"}"
+      else "bad-op"
+    | none => "bad-op"
+  | [op, a, b, how] =>
+    match parseTime? (a ++ ":" ++ b) with
+    | some t =>
+      if !howOk how t || !inI64 t.sec then "bad-op"
+      else if op == "ntime.rtt" then
+        let e := encodeNanoTime t; s!"enc={showTok e} dec={showRes showTime (decodeNanoTime cfg.nanoTime e)}"
+      else if op == "utime.rtt" then
+        let e := encodeUnixTime t; s!"enc={showTok e} dec={showRes showTime (decodeUnixTime cfg.unixTime e)}"
       else "bad-op"
     | none => "bad-op"
   | _ => "bad-op"
